@@ -17,7 +17,7 @@ TAILS = [[], ['order', 'by', 'name'], ['order', 'by', '1', 'desc'], ['order', 'b
          ['order', 'by', 'name', 'limit', '3'], ['into', 'json'], ['order', 'by', '1', 'limit', '1', 'into', 'csv'],
          ['into', 'html'], ['limit', '1', 'into', 'lines'], ['into', 'tabs'], ['order', 'by', 'name', 'asc', 'into', 'list']]
 AGGS = [['count(*)'], ['count(*)', ',', 'sum(size)'], ['min(size)', ',', 'max(size)', ',', 'avg(size)'], ['ext', ',', 'count(*)']]
-GROUPS = [['group', 'by', 'ext'], ['group', 'by', 'ext', 'order', 'by', 'ext'], ['group', 'by', 'ext', 'into', 'json']]
+GROUPS = [['group', 'by', 'ext', 'order', 'by', '1'], ['group', 'by', 'ext', 'order', 'by', 'ext'], ['group', 'by', 'ext', 'order', 'by', 'ext', 'desc', 'into', 'json']]
 
 
 def queries():
